@@ -1280,7 +1280,8 @@ def desugar_getattr_default(tree):
             if isinstance(node.func, ast.Name) and node.func.id == "getattr" and len(node.args) == 3 and not node.keywords \
                     and isinstance(node.args[0], ast.Name) and isinstance(node.args[1], ast.Constant) \
                     and isinstance(node.args[1].value, str) and _MANGLED.match(node.args[1].value) \
-                    and isinstance(node.args[2], (ast.Constant, ast.Name)):
+                    and (isinstance(node.args[2], (ast.Constant, ast.Name))
+                         or (isinstance(node.args[2], (ast.Tuple, ast.List)) and not node.args[2].elts)):
                 x, name, d = node.args
                 new = ast.IfExp(
                     test=ast.Call(func=ast.Name(id="hasattr", ctx=ast.Load()), args=[copy.deepcopy(x), copy.deepcopy(name)], keywords=[]),
